@@ -272,6 +272,9 @@ func (c *cs) ptrsAt(rev string) []histgen.PointerRef {
 	if p, ok := c.ptrs[rev]; ok {
 		return p
 	}
+	if c.damaged {
+		panic("oracle plumbing used after the repository was damaged: pointers at " + rev)
+	}
 	p := c.model.PointersAt(rev)
 	c.ptrs[rev] = p
 	return p
@@ -301,6 +304,9 @@ func (c *cs) blobPointers(shas []string) {
 }
 
 func (c *cs) plain(dir string, args ...string) (string, bool) {
+	if c.damaged {
+		panic("oracle plumbing used after the repository was damaged: git " + strings.Join(args, " "))
+	}
 	res := c.env.PlainGit(dir, args...)
 	c.run.Count("oracle_plumbing_commands", 1)
 	return string(res.Stdout), res.OK()
